@@ -453,6 +453,45 @@ fn case_gap(out: &mut CaseOut, seed: u64, idx: u64) {
 /// directory is opened again. Either that open is refused while the iterator lives, or whatever
 /// the new instance does (rewrite everything, compact, collect garbage) leaves the iterator's
 /// tables alone: the iterator must deliver exactly its frozen view without an error.
+/// Generated single-client histories with many clean reopens (options and log-reuse setting redrawn
+/// each time): the directory is judged right after every reopen has gone quiet - an open ends with a
+/// collection, nothing can be waiting for a later one - and, with the extra cycle, at the end.
+struct DirectoryObserver {
+    ctx: serde_json::Value,
+    checks: u64,
+}
+
+impl crate::history::Observer for DirectoryObserver {
+    fn checkpoint(&mut self, sess: &mut Session, out: &mut CaseOut, _universe: &BTreeSet<Vec<u8>>, reason: &str) {
+        match reason {
+            "after-reopen" => {
+                dir_check_now(out, sess, "right-after-a-clean-reopen", &self.ctx, "C11");
+                self.checks += 1;
+            }
+            "final" => {
+                dir_check(out, sess, "at-the-end-of-a-history", &self.ctx, "C11");
+                self.checks += 1;
+            }
+            _ => {}
+        }
+    }
+}
+
+fn case_history_with_directory_checks(out: &mut CaseOut, tier: &str, seed: u64, idx: u64) {
+    let mut rng = Rng::new(mix(&[seed, idx], "c11-history"));
+    let n_ops = if tier == "quick" { 250 } else { rng.range(250, 900) as usize };
+    let mut params = crate::history::HistoryParams::generate(&mut rng, idx, n_ops);
+    params.reopen_weight = 8;
+    params.tiny_configs_on_reopen = true;
+    let mut observer = DirectoryObserver { ctx: json!({"family": "history-with-directory-checks", "params": params.describe()}), checks: 0 };
+    let outcome = crate::history::run(out, &mut rng, &params, &mut observer);
+    out.add("directory_checks_in_histories", observer.checks);
+    if observer.checks >= 2 {
+        out.nontrivial(format!("history-dirs/{}/reopens{}", params.cfg.class(), outcome.reopen_pattern.len().min(20)));
+    }
+    out.sample = Some(json!({"family": "history-with-directory-checks", "reopen_pattern": outcome.reopen_pattern, "directory_checks": observer.checks}));
+}
+
 /// The same situation on the file system raindb ships for tests and examples, `InMemoryFileSystem`
 /// (every other case of the family): an iterator outlives its `DB`; whatever a later instance on
 /// the same path does, the iterator must deliver its view.
@@ -1076,6 +1115,8 @@ pub fn run_case(tier: &str, seed: u64, idx: u64) -> CaseOut {
         case_parked_reader(&mut out, seed, idx - ng - no - n_shapes(tier));
     } else if (idx - ng - no) % 5 == 4 {
         case_crash_images(&mut out, tier, seed, idx);
+    } else if (idx - ng - no) % 5 == 2 {
+        case_history_with_directory_checks(&mut out, tier, seed, idx);
     } else {
         case_shape(&mut out, tier, seed, idx - ng - no);
     }
